@@ -113,13 +113,13 @@ type dhtRun struct {
 	asks   []p2p.PeerID
 	result string
 	// fields for the oracle
-	closest              p2p.PeerID
-	accepted, contacted  int
-	responded            int
-	err                  bool
-	value, from          []byte
-	added                int
-	timedOut, panicked   bool
+	closest             p2p.PeerID
+	accepted, contacted int
+	responded           int
+	err                 bool
+	value, from         []byte
+	added               int
+	timedOut, panicked  bool
 }
 
 // dhtDo runs one iterative operation of the real implementation against the simulated network.
